@@ -175,7 +175,8 @@ def compare(case, sim_result, obs):
         if sync and bd is not None:
             # ninja's decision: which outputs were (re)made.  The driver's own files are rewritten on both sides.
             sm = {f for f in sim_modified(si) if not f.endswith(".rsp")}
-            rm = {f for f in ro["modified"] if not f.endswith(".rsp") and not f.endswith(".toml") and f != "build.ninja"}
+            drv = {p_[len(bd) + 1:] for p_ in si.get("driver_writes", []) if p_.startswith(bd + "/")}  # files the driver itself writes
+            rm = {f for f in ro["modified"] if not f.endswith(".rsp") and not f.endswith(".toml") and f != "build.ninja" and f not in drv}
             if s_ok:
                 stats["dirtiness_sets_compared"] += 1
                 stats["edges_rerun_compared"] += len(sm)
@@ -183,6 +184,9 @@ def compare(case, sim_result, obs):
                     dis.append({"case": case["id"], "inv": i, "what": "set of rebuilt outputs", "only_sim": sorted(sm - rm)[:6], "only_real": sorted(rm - sm)[:6],
                                 "reasons": {k: v for k, v in si["ninja"][0]["reasons"].items() if v}})
                     return dis, stats
+        if s_ok and r_ok and not si.get("ninja"):
+            # the driver decided not to run ninja at all: nothing of ninja's to compare; the sides stay as they were
+            continue
         if s_ok and r_ok:
             stats["full_state_compared"] += 1
             # only files of the CURRENT graph: leftovers of earlier, differently interrupted invocations may differ
